@@ -72,7 +72,7 @@ def check_gmm(rng, X, w, desc):
     g = GaussianMixture(n_components=K, covariance_type=ct, random_state=seed, n_init=int(rng.choice([1, 2])))
     try:
         with np.errstate(all="ignore"):
-            g.fit(X, sample_weight=None if w is None else w.copy())
+            g.fit(X, sample_weight=None if w is None else w)
     except Exception as e:
         return [(f"gmm-exception-{type(e).__name__}", f"GaussianMixture({ct},K={K}).fit raised {e} on {desc}")], ct, K
     W = np.asarray(g.weights_)
@@ -187,7 +187,7 @@ def check_hier(rng, X, w, desc):
     st0 = np.random.get_state()
     try:
         with np.errstate(all="ignore"):
-            h.fit(X, None if w is None else w.copy())
+            h.fit(X, None if w is None else w)
     except Exception as e:
         return [(f"hier-exception-{type(e).__name__}", f"HierarchicalGaussianMixture.fit raised {type(e).__name__}: {e} on {desc} {cfg}")], cfg, 0
     K = int(h.n_clusters_)
@@ -244,6 +244,11 @@ def check_hier(rng, X, w, desc):
     span = np.maximum(hi - lo, 1e-12)
     Q = [X[: min(n, 50)], lo + span * rng.random((20, d)), X[:1], lo + span * rng.uniform(-1e3, 1e3, (20, d)),
          rng.choice([-1.0, 1.0], (10, d)) * 10 ** rng.uniform(3, 100, (10, d))]
+    if rng.random() < 0.06:
+        # one very long query batch (the persistent pool of a long run is predicted in one call): not a multiple of any power of two
+        nq = int(rng.choice([65537, 70001, 131073, 200003]))
+        Q.append(lo + span * rng.random((nq, d)))
+        cfg["long_query"] = nq
     for qi, q in enumerate(Q):
         try:
             with np.errstate(all="ignore"):
@@ -254,7 +259,7 @@ def check_hier(rng, X, w, desc):
         p = np.asarray(p)
         if p.shape != (len(q),) or p.dtype.kind not in "iu" or p.min() < 0 or p.max() >= K:
             bad.append(("hier-predict-range", f"predict labels outside [0,{K}) for query class {qi}"))
-        if qi < 4:
+        if qi < 4 or qi == 5:
             try:
                 with np.errstate(all="ignore"):
                     pp = h.predict_proba(q)
@@ -272,6 +277,10 @@ def _batch(seed, start, count, nmax):
     for i in range(start, start + count):
         rng = ck.rng("data", i)
         X, w, desc = gen_data(rng, nmax)
+        if i % 4 == 3:
+            X = np.asfortranarray(X)            # column-major data (e.g. a transposed chain array)
+            desc["layout"] = "F"
+        X_keep, w_keep = X.copy(), (None if w is None else w.copy())
         out = []
         try:
             b1, ct, K = check_gmm(rng, X, w, desc)
@@ -294,6 +303,7 @@ def _batch(seed, start, count, nmax):
         except Exception:
             out.append(("exception", fmt_exc()))
             KK = 0
+        # (the fits above were handed the caller's own arrays; every later fit / predict of this case saw what they left behind)
         res.append((i, desc, out, rep, KK))
     return res
 
@@ -315,6 +325,8 @@ def run():
             ck.event("HierarchicalGaussianMixture fit checked")
             if rep:
                 ck.event("weight-replication pair compared")
+            if (desc.get("hier") or {}).get("long_query"):
+                ck.event("predict / predict_proba on one batch of more than 65536 query points")
             if (desc.get("hier") or {}).get("reused_after_d") is not None:
                 ck.event("hierarchical fits on a previously used model object compared with a fresh object")
                 if desc["hier"]["reused_after_d"] != desc["d"]:
